@@ -10,6 +10,9 @@
 #      a VIOLATION there. A seed that is no longer caught is a defect of the machinery:
 #      it is reported as SELFTEST-FAIL and turns a passing run into exit 2 (never into a
 #      VIOLATION of the property, and it never hides one).
+#   3. self-test of the translator (govc conform): the real functions under contract are run
+#      on solver-chosen inputs and must behave as their symbolic execution predicts; a
+#      disagreement is reported as SELFTEST-FAIL (exit 2), like a lost seed.
 id=$1
 cd /verif
 ./bin/govc check $id --tier thorough
@@ -28,5 +31,11 @@ for d in seeded/$id-m*/; do
   fi
 done
 echo "selftest: $n seeded changes replayed for $id"
+cout=$(./bin/govc conform $id 2>&1); crc=$?
+echo "$cout" | grep -E "^conformance|^CONFORMANCE-FAIL" | sed 's/^/selftest: /'
+if [ $crc -ne 0 ]; then
+  echo "SELFTEST-FAIL: translator conformance of $id (exit $crc): the generator's semantics disagrees with a real run"
+  fail=1
+fi
 if [ $rc -eq 0 ] && [ $fail -ne 0 ]; then exit 2; fi
 exit $rc
